@@ -76,9 +76,12 @@ class TlsProtocolVersion(ProtocolVersionBase, GradeableSimple):
     def __lt__(self, other):
         if self.major == other.major:
             return self.minor < other.minor
-        if self.is_draft:
+
+        self_is_preliminary = self.is_draft or self.is_google_experimental
+        other_is_preliminary = other.is_draft or other.is_google_experimental
+        if self_is_preliminary and not other_is_preliminary:
             return other.version == TlsVersion.TLS1_3
-        if other.is_draft:
+        if other_is_preliminary and not self_is_preliminary:
             return self.version != TlsVersion.TLS1_3
 
         return self.major < other.major
